@@ -5,6 +5,12 @@ Tie (relational): Step.map over the other step's map is evaluated by the real co
 rebased step, applied by the real code, must have the same effect as the real rebased step.
 Search: the full convergence check on pairs of steps produced by high-level operations on a common
 base document whose touched ranges are separated by at least one untouched token.
+
+Guard of `commute_succeeds_replace` (lean/Props/C17.lean): `commuteGuard = insideLeft or insideRight`
+(lean/PM/CommuteGuard.lean) — one of the two replace steps happens inside an element node the other one does not
+touch.  Tie: both halves computed from the real `ResolvedPos` data (`inside_left`, `inside_right` below) are compared
+with the model's values (driver op `commuteGuard`) on every separated pair of replace steps that both apply.  Relational oracle: guard true  =>  both rebased steps apply in the
+real code and give equal documents (a failure there is *not* excused by the open finding C17-parent-retyped).
 """
 from prosemirror.transform import (
     AddMarkStep,
@@ -41,6 +47,49 @@ def separated(a, b):
     return sa[1] < sb[0] or sb[1] < sa[0]
 
 
+def inside_left(doc, l, r):
+    """`insideLeft` of lean/PM/CommuteGuard.lean on the real data: replace_outer of the left step `l` descends into an
+    element node (level by level: `depth < from.depth - open_start` and `from`, `to` inside the same child) that
+    the range of the right step `r` begins behind, in a node replace_outer of `r` reaches as well"""
+    rf1, rt1 = doc.resolve(l.from_), doc.resolve(l.to)
+    rf2 = doc.resolve(r.from_)
+    e1 = rf1.depth - l.slice.open_start
+    e2 = rf2.depth - r.slice.open_start
+    d = 0
+    while True:
+        if rf1.depth <= d:
+            return False
+        if not (e1 - d > 0 and rt1.depth > d and rt1.index(d) == rf1.index(d)):
+            return False
+        end_n = rf1.after(d + 1)
+        if r.from_ >= end_n:
+            return True
+        if not (e2 - d > 0 and r.to < end_n):
+            return False
+        d += 1
+
+
+def inside_right(doc, l, r):
+    """`insideRight` of lean/PM/CommuteGuard.lean on the real data: replace_outer of the right step `r` descends into an
+    element node that the range of the left step `l` ends in front of, in a node replace_outer of `l` reaches as well"""
+    rf2, rt2 = doc.resolve(r.from_), doc.resolve(r.to)
+    rf1 = doc.resolve(l.from_)
+    e1 = rf1.depth - l.slice.open_start
+    e2 = rf2.depth - r.slice.open_start
+    d = 0
+    while True:
+        if rf2.depth <= d:
+            return False
+        if not (e2 - d > 0 and rt2.depth > d and rt2.index(d) == rf2.index(d)):
+            return False
+        start_m = rf2.before(d + 1)
+        if l.to <= start_m:
+            return True
+        if not (e1 - d > 0 and l.from_ > start_m):
+            return False
+        d += 1
+
+
 def first_step(rng, info, d, docs):
     tr = Transform(d)
     name, args, thunk = ops.plan_op(rng, info, d, docs)
@@ -61,8 +110,21 @@ def run(ctx):
     core.lean_phase(ctx)
     rng = ctx.rng
     reqs, metas = [], []
+    greqs, gmetas = [], []
 
     def flush():
+        gouts = ctx.driver.run(greqs) if greqs else []
+        for (replay, impl_guard, converged), out in zip(gmetas, gouts):
+            ctx.count("guard:model_requests")
+            mo = out.get("ok")
+            if not isinstance(mo, list) or mo[:2] != list(impl_guard) or mo[2] is not (impl_guard[0] or impl_guard[1]):
+                ctx.mismatch("commuteGuard", replay, impl_guard, out)
+                continue
+            ctx.count("guard:left=%s,right=%s" % (mo[0], mo[1]))
+            if mo[2] and not converged:
+                # the theorem's conclusion fails on the real code although its guard holds
+                ctx.mismatch("commuteGuard=>converge", replay, "a rebased step fails or the orders differ", out)
+        del greqs[:], gmetas[:]
         outs = ctx.driver.run(reqs) if reqs else []
         for req, (replay, info, impl_rebased, base), out in zip(reqs, metas, outs):
             ctx.count("model_requests")
@@ -132,6 +194,12 @@ def run(ctx):
                         continue
                     dab, dba = apply_doc(b2, da), apply_doc(a2, db)
                     replay["a_rebased"], replay["b_rebased"] = a2.to_json(), b2.to_json()
+                    if type(a) is ReplaceStep and type(b) is ReplaceStep:
+                        l, r = (a, b) if a.to < b.from_ else (b, a)
+                        stg, g = outcome(lambda: (inside_left(d, l, r), inside_right(d, l, r)))
+                        if stg == "ok":
+                            greqs.append({"op": "commuteGuard", "doc": info.node(d), "a": info.step(l), "b": info.step(r)})
+                            gmetas.append((replay, g, dab is not None and dba is not None and dab.eq(dba)))
                     if dab is None or dba is None:
                         ctx.violation("order-fails", "one order of application fails after rebasing", dict(replay, ab_ok=dab is not None, ba_ok=dba is not None))
                     elif not dab.eq(dba):
